@@ -17,7 +17,8 @@ RULE = ("point clouds (1-D and 2-D arrays, optionally with an ignored third coor
         "copies, transposed views of transposed copies, strided windows of larger C / Fortran arrays, slices of transposed views, easting "
         "and northing with different layouts, non-square shapes - and integer-valued lattice clouds also as int64 / int32 arrays; easting, northing and the extra coordinate also with DIFFERENT dtypes (int32/int64/float32/float64 in all orders) and values needing the wider type (fractions next to integers, 7.5e6 + fractions next to float32), regions also smaller than the data extent with both adjust modes; the model "
         "always receives the logical C-order ravel. Every call is made twice on the same argument objects (identical result, arguments "
-        "unchanged). Non-trivial = the call returns labels for a non-empty cloud; distinct = distinct argument tuples. Points within 2^-30 x scale "
+        "unchanged); a sequence stream calls, modifies the same array objects in place (shift, scale, centre, overwrite) and calls again "
+        "(must match the model on the new values and a call on fresh copies). Non-trivial = the call returns labels for a non-empty cloud; distinct = distinct argument tuples. Points within 2^-30 x scale "
         "of a shared edge are excluded point-wise from the label equality (the statement is still evaluated on them); cases whose "
         "extent/spacing quotient is within 2^-30 of a rounding tie without being one are skipped.")
 ASSUMPTIONS = [
@@ -34,9 +35,13 @@ def dl(xs):
     return clist([cD(float(x)) for x in xs])
 
 
-def block_case(vd, spec, spacing, adj, region, shape, kind):
-    """spec: [(values, layout, dtype), ...] (harness/layouts.py); the model gets the logical C-order ravel"""
+def block_case(vd, spec, spacing, adj, region, shape, kind, pre=None):
+    """spec: [(values, layout, dtype), ...] (harness/layouts.py); the model gets the logical C-order ravel.
+    pre = (first, ops): an earlier call on the same array objects followed by in-place modifications"""
     coords = layouts.build(spec)
+    if pre:
+        layouts.first_call(vd, coords, pre[0])
+        layouts.apply_ops(coords, pre[1])
     snap = layouts.snapshot(coords)
     east, north = coords[0], coords[1]
     kw = {}
@@ -59,6 +64,9 @@ def block_case(vd, spec, spacing, adj, region, shape, kind):
         bc2, labels2 = vd.block_split(coords, **kw)
         stable = (layouts.unchanged(coords, snap) and np.array_equal(np.asarray(labels2), labels)
                   and all(np.array_equal(a, b) for a, b in zip(bc, bc2)))
+        if pre:   # and the same as a call on fresh copies of the modified arrays
+            bc3, labels3 = vd.block_split(layouts.fresh(coords), **kw)
+            stable = stable and np.array_equal(np.asarray(labels3), labels) and all(np.array_equal(a, b) for a, b in zip(bc, bc3))
         if shape_ok:
             obs = {"centres_east": [float(x) for x in bc[0]], "centres_north": [float(x) for x in bc[1]],
                    "labels": [int(x) for x in labels], "second_call_identical_and_arguments_unchanged": bool(stable)}
@@ -70,6 +78,10 @@ def block_case(vd, spec, spacing, adj, region, shape, kind):
     except ValueError:
         obs = "ValueError"
         cobs = "None"
+    except Exception as exc:   # any other exception on these inputs is a failure of the implementation
+        obs = {"unexpected_exception": repr(exc)}
+        cobs = "(Some ([], [], []))"
+        shape_ok = False
     if spacing is None:
         csp = "None"
     elif np.isscalar(spacing):
@@ -79,9 +91,11 @@ def block_case(vd, spec, spacing, adj, region, shape, kind):
     cshape = "None" if shape is None else "(Some (%s, %s))" % (cZ(shape[0]), cZ(shape[1]))
     creg = "None" if region is None else "(Some %s)" % dl(region)
     term = "c08_case %s %s %s %s %s %s %s %s" % (dl(layouts.logical(east)), dl(layouts.logical(north)), csp, cZ(adj), creg, cshape, cobs, cbool(shape_ok))
-    repro = layouts.repro_args(spec) + "import verde; print(verde.block_split(c, **%r))" % (kw,)
+    repro = layouts.repro_args(spec) + (layouts.repro_sequence(*pre) if pre else "") + "import verde; print(verde.block_split(c, **%r))" % (kw,)
     inp = {"fn": "block_split", "coordinates": layouts.describe(spec), "spacing": spacing, "shape": shape,
            "region": None if region is None else [float(r) for r in region], "adjust": ADJ[adj]}
+    if pre:
+        inp["after"] = {"earlier_call_on_same_objects": [pre[0][0], repr(pre[0][1])], "then_in_place": [list(o) for o in pre[1]]}
     return Case(inp, obs, term, repro, kind, nontrivial=(obs != "ValueError" and east.size > 0))
 
 
@@ -253,6 +267,25 @@ def generate(tier, seed):
             sp, sh, adj = None, rnd.choice([(2, 3), (3, 2), (3, 4), (1, 4), (5, 1)]), 0
         keep = 3 if i % 2 == 0 else 2
         cases.append(block_case(vd, layouts.arrange(rnd, arrs[:keep], dt=dts[:keep]), sp, adj, reg, sh, "mixed-dtype"))
+    # sequences: a call, the SAME coordinate array objects modified in place, the call under test (must match the
+    # model on the new values and a call on fresh copies)
+    for i in range(nper // 2):
+        m = rnd.choice([6, 8, 10, 12, 15])
+        ints = rnd.random() < 0.3
+        xs = [rnd.randint(-4, 4) for _ in range(m)] if ints else [rnd.randint(-16, 16) / 4 for _ in range(m)]
+        ys = [rnd.randint(-3, 3) for _ in range(m)] if ints else [rnd.randint(-12, 12) / 4 for _ in range(m)]
+        spec = layouts.arrange(rnd, [xs, ys], dt=rnd.choice(["int64", "int32"]) if ints else "float64")
+        ops = layouts.sequence_ops(rnd, spec)
+        reg = rnd.choice([None, None, (-4.0, 4.0, -3.0, 3.0)])
+        if rnd.random() < 0.6:
+            kw1 = {"spacing": rnd.choice([1.0, 1.5, 2.0])}
+            sp, sh, adj = rnd.choice([1.0, 1.5, 2.0, (1.0, 2.0)]), None, rnd.choice([0, 1])
+        else:
+            kw1 = {"shape": rnd.choice([(2, 3), (3, 2)])}
+            sp, sh, adj = None, rnd.choice([(2, 3), (3, 2), (1, 4), (3, 3)]), 0
+        if reg is not None and rnd.random() < 0.5:
+            kw1["region"] = reg
+        cases.append(block_case(vd, spec, sp, adj, reg, sh, "sequence-in-place", pre=(("block_split", kw1), ops)))
     # integer-valued lattice clouds passed with integer dtypes (1-D and 2-D, all layouts)
     for i in range(nper // 2):
         m = rnd.choice([4, 6, 6, 8, 10, 12, 12, 15])
@@ -285,3 +318,13 @@ def generate(tier, seed):
 
 def search(dis, tier, seed):
     return generate("quick", seed + 1)
+
+
+def _guard(fn):
+    def wrapped(vd, spec, *a, **k):
+        inp = {"fn": fn.__name__, "coordinates": layouts.describe(spec), "arguments": repr(a[:-1]), "after": repr(k.get("pre"))}
+        return core.guarded(lambda: fn(vd, spec, *a, **k), inp, a[-1])
+    return wrapped
+
+
+block_case = _guard(block_case)
